@@ -193,6 +193,8 @@ pub fn bitseq_cmp(s: &mut Src) -> R {
     use std::cmp::Ordering::*;
     let a = seq!(s);
     let b = seq!(s);
+    // bounded stand-in (the unbounded proof of cmp is the Verus unit): lengths <= 8
+    pre!(a.len() <= 8 && b.len() <= 8);
     reach!();
     let exp = a.len().cmp(&b.len())
         .then(a.as_u64().count_ones().cmp(&b.as_u64().count_ones()))
@@ -257,7 +259,7 @@ pub fn bitseq_reject_new_overlong(s: &mut Src) -> R {
 crate::harness_table!(BITSEQ:
     bitseq_new, bitseq_new_rev, bitseq_consts, bitseq_set, bitseq_push, bitseq_append,
     bitseq_remove, bitseq_insert, bitseq_sub, bitseq_is_sub, bitseq_index, bitseq_from_bit,
-    bitseq_weight [unwind 66], bitseq_cmp [unwind 66], bitseq_iter [unwind 66],
+    bitseq_weight [unwind 66], bitseq_cmp [unwind 10], bitseq_iter [unwind 66],
     bitseq_from_iter [unwind 66], bitseq_generate [unwind 10],
 );
 crate::harness_table_should_panic!(BITSEQ_REJECT: bitseq_reject_push_full, bitseq_reject_new_overlong);
